@@ -221,7 +221,7 @@ var vfCfgPayloads = []string{
 func vfC12RelayRun(cs vfC12RelayCase) string {
 	vfCurCase("TestVF_C12Relay", cs)
 	g := newVfRelayRig(cs.Tmux, 80)
-	defer g.close()
+	defer vfCloseWhenIdle(g)
 	id := "1234567890100"
 	if cs.Win {
 		id = "1234567890110"
@@ -245,15 +245,26 @@ func vfC12RelayRun(cs vfC12RelayCase) string {
 	// whatever state this left: both ends give up
 	g.cliIn.feed(vfEncodeLine("fail", []byte("giving up"), "\n"))
 	g.srvOut.feed(vfEncodeLine("FAIL", []byte("giving up"), nl))
-	// The rig ends the case by closing the relay's inputs (EOF). A handshake worker that is still busy then writes into a channel
-	// its reader side has closed - "send on closed channel" - which is what the end of a relay's life looks like, not a reaction
-	// to input (see DESIGN §8.3): the worker is given time to finish first.
-	deadline := time.Now().Add(3 * time.Second)
-	for g.relay.relayStatus.Load() != kRelayStandBy && time.Now().Before(deadline) {
-		time.Sleep(time.Millisecond)
-	}
-	time.Sleep(10 * time.Millisecond)
 	return ""
+}
+
+// vfCloseWhenIdle ends a rig by closing the relay's inputs (EOF) - but only once no handshake worker is busy: a worker that is
+// still on its way when the reader sides close their channels writes into a closed channel ("send on closed channel"), which is
+// what tearing a relay down in the middle of a handshake looks like, not a reaction to input (see DESIGN §8.3). A relay that does
+// not come to rest within half a second (a second trigger hidden in the junk waits for an action for ever) is left as it is.
+func vfCloseWhenIdle(g *vfRelayRig) {
+	deadline := time.Now().Add(500 * time.Millisecond)
+	for time.Now().Before(deadline) {
+		if g.relay.relayStatus.Load() != kRelayStandBy {
+			time.Sleep(time.Millisecond)
+			continue
+		}
+		time.Sleep(30 * time.Millisecond)
+		if g.relay.relayStatus.Load() == kRelayStandBy {
+			g.close()
+			return
+		}
+	}
 }
 
 func TestVF_C12Relay(t *testing.T) {
